@@ -18,12 +18,13 @@ import (
 
 // reader kinds
 const (
-	rManual     = iota // NewManualReader with recording selectors
-	rPeriodic          // NewPeriodicReader(recording exporter), interval 1h
-	rPeriodicMs        // NewPeriodicReader(recording exporter), interval 1ms
+	rManual       = iota // NewManualReader with recording selectors
+	rPeriodic            // NewPeriodicReader(recording exporter), interval 1h
+	rPeriodicMs          // NewPeriodicReader(recording exporter), interval 1ms
+	rPeriodicFail        // NewPeriodicReader(recording exporter whose Export always fails), interval 1h
 )
 
-var readerNames = []string{"manual", "periodic(1h)", "periodic(1ms)"}
+var readerNames = []string{"manual", "periodic(1h)", "periodic(1ms)", "periodic(1h, failing exporter)"}
 
 // MOp is one step of a metric program.
 type MOp struct {
@@ -115,7 +116,10 @@ type recMetricExp struct {
 	mu        sync.Mutex
 	exports   []int64
 	shutdowns []ival
+	fail      bool // Export reports an error (the backend is down)
 }
+
+var errBackendDown = errors.New("scripted export failure")
 
 func (e *recMetricExp) Temporality(sdkmetric.InstrumentKind) metricdata.Temporality {
 	e.rec.selected()
@@ -131,6 +135,9 @@ func (e *recMetricExp) Export(context.Context, *metricdata.ResourceMetrics) erro
 	e.mu.Lock()
 	e.exports = append(e.exports, e.clock.Tick())
 	e.mu.Unlock()
+	if e.fail {
+		return errBackendDown
+	}
 	return nil
 }
 func (e *recMetricExp) ForceFlush(context.Context) error { return nil }
@@ -181,7 +188,7 @@ func (p MProg) eachOp(fn func(g, i int, op MOp)) {
 func validM(p MProg) bool {
 	ok := len(p.Readers) <= 4 && len(p.Gs) <= 8
 	for _, k := range p.Readers {
-		if k < 0 || k > rPeriodicMs {
+		if k < 0 || k > rPeriodicFail {
 			ok = false
 		}
 	}
@@ -233,7 +240,7 @@ func execMetric(p MProg) (*mhist, func()) {
 					return metricdata.CumulativeTemporality
 				})), rec}
 		default:
-			mr.exp = &recMetricExp{clock: clock, rec: rec}
+			mr.exp = &recMetricExp{clock: clock, rec: rec, fail: k == rPeriodicFail}
 			iv := time.Hour
 			if k == rPeriodicMs {
 				iv = time.Millisecond
@@ -463,6 +470,17 @@ func oracleMetric(h *mhist) ([]vk.Violation, map[string]bool) {
 			if (down || st.r0 != never) && len(esd) != 1 {
 				bad("not_shut_down", "the exporter of %s was shut down %d times although its reader / the provider has been shut down with a live context", name, len(esd))
 			}
+			// A PeriodicReader shuts its exporter down as part of its own
+			// (first) Shutdown, whatever the final flush reported: once ANY
+			// live-context Shutdown call on the reader has returned - even with
+			// the export error of a backend that is down - the exporter has
+			// been shut down exactly once.
+			for _, s := range st.sd {
+				if s.Live && len(esd) != 1 {
+					bad("not_shut_down", "the exporter of %s was shut down %d times although a Shutdown call with a live context on its reader has returned (%v)", name, len(esd), s.Err)
+					break
+				}
+			}
 			for _, x := range ex {
 				if x > st.dr {
 					bad("export_after_shutdown", "the exporter of %s received an Export call at t=%d, after the reader's Shutdown had returned (t=%d)", name, x, st.dr)
@@ -616,7 +634,7 @@ func genReaders(t *rapid.T) []int {
 	if rapid.IntRange(0, 11).Draw(t, "no_reader") == 0 {
 		return nil
 	}
-	return rapid.SliceOfN(rapid.SampledFrom([]int{rManual, rManual, rPeriodic, rPeriodic, rPeriodicMs}), 1, 3).Draw(t, "readers")
+	return rapid.SliceOfN(rapid.SampledFrom([]int{rManual, rManual, rPeriodic, rPeriodic, rPeriodicMs, rPeriodicFail}), 1, 3).Draw(t, "readers")
 }
 
 func genMetricSeq(t *rapid.T) MProg {
